@@ -497,3 +497,364 @@ Lemma label_refuted :
   parse_nt (ser_nt label_witness) <> Some label_witness /\
   parse_ttl (ser_ttl label_witness) <> Some label_witness.
 Proof. vm_compute. repeat split; discriminate. Qed.
+
+(* ---------- RDF/XML document ---------- *)
+Lemma esc_no34 : forall v, forallb (fun c => negb (c =? 34)) (xml_escape v) = true.
+Proof.
+  induction v as [|c v IH]; [reflexivity|].
+  cbn [xml_escape]. rewrite forallb_app, IH, andb_true_r. unfold xesc_char.
+  destruct (c =? 60); [reflexivity|]. destruct (c =? 62); [reflexivity|].
+  destruct (c =? 38); [reflexivity|]. destruct (c =? 39); [reflexivity|].
+  destruct (c =? 34) eqn:E; [reflexivity|]. cbn [forallb]. rewrite E. reflexivity.
+Qed.
+
+Lemma esc_no60 : forall v, forallb (fun c => negb (c =? 60)) (xml_escape v) = true.
+Proof.
+  induction v as [|c v IH]; [reflexivity|].
+  cbn [xml_escape]. rewrite forallb_app, IH, andb_true_r. unfold xesc_char.
+  destruct (c =? 60) eqn:E; [reflexivity|]. destruct (c =? 62); [reflexivity|].
+  destruct (c =? 38); [reflexivity|]. destruct (c =? 39); [reflexivity|].
+  destruct (c =? 34); [reflexivity|]. cbn [forallb]. rewrite E. reflexivity.
+Qed.
+
+Lemma esc_ws : forall v, forallb is_ws (xml_escape v) = forallb is_ws v.
+Proof.
+  induction v as [|c v IH]; [reflexivity|].
+  cbn [xml_escape forallb]. rewrite forallb_app, IH. f_equal. unfold xesc_char.
+  destruct (c =? 60) eqn:E1; [apply N.eqb_eq in E1; subst; reflexivity|].
+  destruct (c =? 62) eqn:E2; [apply N.eqb_eq in E2; subst; reflexivity|].
+  destruct (c =? 38) eqn:E3; [apply N.eqb_eq in E3; subst; reflexivity|].
+  destruct (c =? 39) eqn:E4; [apply N.eqb_eq in E4; subst; reflexivity|].
+  destruct (c =? 34) eqn:E5; [apply N.eqb_eq in E5; subst; reflexivity|].
+  cbn [forallb]. apply andb_true_r.
+Qed.
+
+Lemma read_attr_enc : forall v rest, read_attr (xml_escape v ++ 34 :: rest) = Some (v, rest).
+Proof.
+  intros v rest. unfold read_attr.
+  rewrite (span_all (fun c => negb (c =? 34)) (xml_escape v) 34 rest (esc_no34 v) eq_refl).
+  rewrite xml_escape_roundtrip. reflexivity.
+Qed.
+
+Lemma read_text_enc : forall v rest, ws_only v = false ->
+  read_text (xml_escape v ++ 60 :: rest) = Some (v, 60 :: rest).
+Proof.
+  intros v rest W. unfold read_text.
+  rewrite (span_all (fun c => negb (c =? 60)) (xml_escape v) 60 rest (esc_no60 v) eq_refl).
+  rewrite xml_escape_roundtrip.
+  destruct (xml_escape v) as [|a x] eqn:E; [reflexivity|].
+  rewrite <- E, esc_ws.
+  destruct v as [|c v]; [discriminate|].
+  unfold ws_only in W. cbn [negb andb] in W. rewrite W. reflexivity.
+Qed.
+
+Lemma xml_body_enc : forall qn v rest, ws_only v = false ->
+  xml_body qn (62 :: xml_escape v ++ (60 :: 47 :: qn ++ [62]) ++ rest) = Some (v, rest).
+Proof.
+  intros qn v rest W. cbn [xml_body].
+  change ((60 :: 47 :: qn ++ [62]) ++ rest) with (60 :: (47 :: qn ++ [62]) ++ rest).
+  rewrite (read_text_enc v _ W).
+  change (60 :: (47 :: qn ++ [62]) ++ rest) with ((60 :: 47 :: qn ++ [62]) ++ rest).
+  rewrite strip_app. reflexivity.
+Qed.
+
+Definition wf_xsubject (s : subject) : bool :=
+  match s with SIri i => iri_ok i | SBlank b => ncname b end.
+Definition wf_xobject (o : object) : bool :=
+  match o with
+  | OIri i => iri_ok i
+  | OBlank b => ncname b
+  | OLit (LSimple v) => negb (ws_only v)
+  | OLit (LLang v l) => lang_ok l && negb (ws_only v)
+  | OLit (LTyped v dt) => iri_ok dt && negb (ws_only v)
+  end.
+Definition wf_xrio (t : rio_triple) : bool :=
+  let '(s, p, o) := t in
+  wf_xsubject s && negb (reserved_pred p) && negb (str_eqb p XMLNS_NS) && wf_xobject o.
+
+(* the text of an object after the namespace declaration, with the continuation *)
+Definition obj_part (qn : str) (o : object) (rest : str) : str :=
+  match o with
+  | OIri i => A_RES ++ xml_escape i ++ 34 :: X_EMPTY_END ++ rest
+  | OBlank b => A_NODEID ++ xml_escape b ++ 34 :: X_EMPTY_END ++ rest
+  | OLit (LSimple v) => 62 :: xml_escape v ++ (60 :: 47 :: qn ++ [62]) ++ rest
+  | OLit (LLang v l) => A_LANG ++ xml_escape l ++ 34 :: 62 :: xml_escape v ++ (60 :: 47 :: qn ++ [62]) ++ rest
+  | OLit (LTyped v dt) => A_DT ++ xml_escape dt ++ 34 :: 62 :: xml_escape v ++ (60 :: 47 :: qn ++ [62]) ++ rest
+  end.
+
+Lemma s_res_node : forall x, strip A_RES (A_NODEID ++ x) = None. Proof. reflexivity. Qed.
+Lemma s_res_lang : forall x, strip A_RES (A_LANG ++ x) = None. Proof. reflexivity. Qed.
+Lemma s_res_dt : forall x, strip A_RES (A_DT ++ x) = None. Proof. reflexivity. Qed.
+Lemma s_res_gt : forall x, strip A_RES (62 :: x) = None. Proof. reflexivity. Qed.
+Lemma s_node_lang : forall x, strip A_NODEID (A_LANG ++ x) = None. Proof. reflexivity. Qed.
+Lemma s_node_dt : forall x, strip A_NODEID (A_DT ++ x) = None. Proof. reflexivity. Qed.
+Lemma s_node_gt : forall x, strip A_NODEID (62 :: x) = None. Proof. reflexivity. Qed.
+Lemma s_lang_dt : forall x, strip A_LANG (A_DT ++ x) = None. Proof. reflexivity. Qed.
+Lemma s_lang_gt : forall x, strip A_LANG (62 :: x) = None. Proof. reflexivity. Qed.
+Lemma s_dt_gt : forall x, strip A_DT (62 :: x) = None. Proof. reflexivity. Qed.
+Lemma s_about_node : forall x, strip A_ABOUT (A_NODEID ++ x) = None. Proof. reflexivity. Qed.
+Lemma s_rdfend_desc : forall x, strip X_RDF_END (X_DESC ++ x) = None. Proof. reflexivity. Qed.
+Lemma s_empty_end : forall x, strip X_EMPTY_END (X_EMPTY_END ++ x) = Some x. Proof. reflexivity. Qed.
+
+Lemma dec_xml_object_enc : forall qn o rest, wf_xobject o = true ->
+  dec_xml_object qn (obj_part qn o rest) = Some (o, rest).
+Proof.
+  intros qn [i|b|[v|v l|v dt]] rest H; cbn [wf_xobject] in H; unfold dec_xml_object; cbn [obj_part].
+  - rewrite strip_app, read_attr_enc, s_empty_end, H. reflexivity.
+  - rewrite s_res_node, strip_app, read_attr_enc, s_empty_end, H. reflexivity.
+  - apply negb_true_iff in H. rewrite s_res_gt, s_node_gt, s_lang_gt, s_dt_gt.
+    rewrite (xml_body_enc qn v rest H). reflexivity.
+  - apply andb_true_iff in H as [H1 H2]. apply negb_true_iff in H2.
+    rewrite s_res_lang, s_node_lang, strip_app, read_attr_enc, (xml_body_enc qn v rest H2).
+    unfold lang_ok in H1. apply andb_true_iff in H1 as [H1 H3].
+    rewrite H1, (map_lower_id l H3). reflexivity.
+  - apply andb_true_iff in H as [H1 H2]. apply negb_true_iff in H2.
+    rewrite s_res_dt, s_node_dt, s_lang_dt, strip_app, read_attr_enc, (xml_body_enc qn v rest H2), H1.
+    reflexivity.
+Qed.
+
+(* the shape of a property element *)
+Definition prop_qn (loc : str) : str := match loc with [] => X_PROP | _ => loc end.
+Definition prop_xmlns (ns loc : str) : str :=
+  match loc with [] => A_XMLNS_PROP | _ => A_XMLNS end ++ xml_escape ns ++ [34].
+
+Lemma xml_prop_shape : forall p o rest,
+  xml_prop p o ++ rest =
+  60 :: prop_qn (snd (split_iri p)) ++
+        prop_xmlns (fst (split_iri p)) (snd (split_iri p)) ++
+        obj_part (prop_qn (snd (split_iri p))) o rest.
+Proof.
+  intros p o rest. unfold xml_prop. destruct (split_iri p) as [ns loc]. cbn [fst snd].
+  unfold prop_xmlns, prop_qn, xattr, X_EMPTY_END.
+  destruct loc as [|c loc]; destruct o as [i|b|[v|v l|v dt]]; cbn [obj_part app];
+    repeat (rewrite <- app_assoc; cbn [app]); reflexivity.
+Qed.
+
+Lemma local_of_ncname : forall l, ncname l = true -> forallb local_char l = true.
+Proof.
+  intros [|c l] H; [reflexivity|]. unfold ncname in H.
+  apply andb_true_iff in H as [H Hn]. apply andb_true_iff in H as [Hs Hc]. apply negb_true_iff in Hn.
+  assert (G : forall l, forallb name_char l = true -> existsb (N.eqb 58) l = false ->
+              forallb local_char l = true).
+  { induction l0 as [|x l0 IHl]; intros A B; [reflexivity|].
+    cbn [forallb] in A. apply andb_true_iff in A as [A1 A2].
+    cbn [existsb] in B. apply orb_false_iff in B as [B1 B2].
+    cbn [forallb]. rewrite (IHl A2 B2), andb_true_r. unfold local_char.
+    rewrite A1, N.eqb_sym, B1. reflexivity. }
+  apply G; [|exact Hn]. cbn [forallb]. rewrite Hc, andb_true_r.
+  unfold name_char. rewrite Hs. reflexivity.
+Qed.
+
+Lemma name_start_not_slash : forall c, name_start c = true -> (47 =? c) = false.
+Proof.
+  intros c H. destruct (47 =? c) eqn:E; [|reflexivity].
+  apply N.eqb_eq in E. subst c. vm_compute in H. discriminate.
+Qed.
+
+Lemma not_li_of_not_reserved : forall p, reserved_pred p = false -> str_eqb p RDF_LI = false.
+Proof.
+  intros p H. destruct (str_eqb p RDF_LI) eqn:E; [|reflexivity].
+  apply str_eqb_eq in E. subst p. vm_compute in H. discriminate.
+Qed.
+
+Lemma span_local_xmlns : forall l x, forallb local_char l = true ->
+  span local_char (l ++ A_XMLNS ++ x) = (l, A_XMLNS ++ x).
+Proof. intros l x H. unfold A_XMLNS. cbn [app]. apply span_all; [exact H|reflexivity]. Qed.
+
+Lemma dec_xml_prop_enc : forall li p o rest,
+  reserved_pred p = false -> str_eqb p XMLNS_NS = false -> wf_xobject o = true ->
+  dec_xml_prop li (xml_prop p o ++ rest) = Some (p, o, li, rest).
+Proof.
+  intros li p o rest R X Ho. rewrite xml_prop_shape.
+  pose proof (split_iri_spec p) as [J N]. destruct (split_iri p) as [ns loc] eqn:ES. cbn [fst snd] in *.
+  unfold dec_xml_prop, prop_qn, prop_xmlns.
+  destruct loc as [|c loc].
+  - rewrite app_nil_r in J. subst ns.
+    change (X_PROP ++ (A_XMLNS_PROP ++ xml_escape p ++ [34]) ++ obj_part X_PROP o rest)
+      with (L_PROP ++ 58 :: (A_XMLNS_PROP ++ xml_escape p ++ [34]) ++ obj_part X_PROP o rest).
+    rewrite (span_all local_char L_PROP 58 _ eq_refl eq_refl).
+    change (str_eqb L_PROP L_PROP) with true. cbv iota.
+    rewrite <- !app_assoc. rewrite strip_app. cbn [app]. rewrite read_attr_enc.
+    assert (X2 : str_eqb p XML_NS = false).
+    { destruct (str_eqb p XML_NS) eqn:E2; [|reflexivity].
+      apply str_eqb_eq in E2. subst p. vm_compute in ES. discriminate. }
+    rewrite X, X2. cbn [orb].
+    rewrite (not_li_of_not_reserved p R), R.
+    change (L_PROP ++ [58]) with X_PROP. rewrite (dec_xml_object_enc X_PROP o rest Ho). reflexivity.
+  - destruct N as [N|N]; [discriminate|].
+    rewrite <- !app_assoc.
+    rewrite (span_local_xmlns (c :: loc) _ (local_of_ncname _ N)).
+    remember (A_XMLNS ++ xml_escape ns ++ [34] ++ obj_part (c :: loc) o rest) as r1 eqn:E1.
+    pose proof E1 as E1'. unfold A_XMLNS in E1'. cbn [app] in E1'.
+    destruct r1 as [|d r1']; [discriminate E1'|]. injection E1' as Ed _. subst d.
+    cbv iota. rewrite E1. rewrite strip_app. cbn [app]. rewrite read_attr_enc. rewrite J.
+    rewrite (not_li_of_not_reserved p R), R.
+    rewrite (dec_xml_object_enc (c :: loc) o rest Ho). reflexivity.
+Qed.
+
+Lemma dec_xml_desc_enc : forall s rest, wf_xsubject s = true ->
+  dec_xml_desc (xml_desc_open s ++ rest) = Some (s, rest).
+Proof.
+  intros [i|b] rest H; cbn [wf_xsubject] in H; unfold dec_xml_desc, xml_desc_open, xattr.
+  - rewrite <- !app_assoc. rewrite strip_app, strip_app. cbn [app]. rewrite read_attr_enc, H. reflexivity.
+  - rewrite <- !app_assoc. rewrite strip_app, s_about_node, strip_app. cbn [app].
+    rewrite read_attr_enc, H. reflexivity.
+Qed.
+
+Lemma strip_descend_prop : forall p o rest, strip X_DESC_END (xml_prop p o ++ rest) = None.
+Proof.
+  intros p o rest. rewrite xml_prop_shape.
+  pose proof (split_iri_spec p) as [_ N]. destruct (split_iri p) as [ns loc]. cbn [fst snd] in *.
+  unfold prop_qn. destruct loc as [|c loc]; [reflexivity|].
+  destruct N as [N|N]; [discriminate|]. unfold ncname in N.
+  apply andb_true_iff in N as [N _]. apply andb_true_iff in N as [N _].
+  unfold X_DESC_END. cbn [app strip]. change (60 =? 60) with true. cbv iota.
+  rewrite (name_start_not_slash c N). reflexivity.
+Qed.
+
+Lemma xml_step_prop : forall f s li p o rest,
+  reserved_pred p = false -> str_eqb p XMLNS_NS = false -> wf_xobject o = true ->
+  dec_xml_from (S f) (Some s) li (xml_prop p o ++ rest) =
+  match dec_xml_from f (Some s) li rest with Some l => Some ((s, p, o) :: l) | None => None end.
+Proof.
+  intros f s li p o rest R X Ho. cbn [dec_xml_from].
+  rewrite strip_descend_prop, (dec_xml_prop_enc li p o rest R X Ho). reflexivity.
+Qed.
+
+Lemma xml_step_close : forall f s li rest,
+  dec_xml_from (S f) (Some s) li (X_DESC_END ++ rest) = dec_xml_from f None 0 rest.
+Proof. intros. cbn [dec_xml_from]. rewrite strip_app. reflexivity. Qed.
+
+Lemma xml_step_open : forall f s rest, wf_xsubject s = true ->
+  dec_xml_from (S f) None 0 (xml_desc_open s ++ rest) = dec_xml_from f (Some s) 0 rest.
+Proof.
+  intros f s rest H. cbn [dec_xml_from].
+  assert (E : strip X_RDF_END (xml_desc_open s ++ rest) = None).
+  { unfold xml_desc_open. rewrite <- app_assoc. apply s_rdfend_desc. }
+  rewrite E, (dec_xml_desc_enc s rest H). reflexivity.
+Qed.
+
+Lemma xml_step_end : forall f, dec_xml_from (S f) None 0 X_RDF_END = Some [].
+Proof. reflexivity. Qed.
+
+Lemma xml_from_some : forall ts, forallb wf_xrio ts = true ->
+  forall cur li fuel, (3 * length ts + 2 <= fuel)%nat ->
+  dec_xml_from fuel (Some cur) li (enc_xml_from (Some cur) ts) = Some ts.
+Proof.
+  induction ts as [|[[s p] o] ts IH]; intros Hwf cur li fuel Hf.
+  - destruct fuel as [|[|f]]; [cbn in Hf; lia|cbn in Hf; lia|].
+    cbn [enc_xml_from]. rewrite xml_step_close. apply xml_step_end.
+  - cbn [forallb] in Hwf. apply andb_true_iff in Hwf as [Ht Hts].
+    cbn [wf_xrio] in Ht. apply andb_true_iff in Ht as [Ht Ho]. apply andb_true_iff in Ht as [Ht Hx].
+    apply andb_true_iff in Ht as [Hs Hp]. apply negb_true_iff in Hp. apply negb_true_iff in Hx.
+    cbn [length] in Hf. cbn [enc_xml_from].
+    destruct (subject_eqb cur s) eqn:E.
+    + apply subject_eqb_eq in E. subst cur. cbn [app].
+      destruct fuel as [|f]; [lia|]. rewrite (xml_step_prop f s li p o _ Hp Hx Ho).
+      rewrite (IH Hts s li f); [reflexivity|lia].
+    + destruct fuel as [|[|[|f]]]; try lia.
+      rewrite <- !app_assoc.
+      rewrite xml_step_close, (xml_step_open _ s _ Hs), (xml_step_prop f s 0 p o _ Hp Hx Ho).
+      rewrite (IH Hts s 0 f); [reflexivity|lia].
+Qed.
+
+Lemma xml_from_none : forall ts, forallb wf_xrio ts = true ->
+  forall fuel, (3 * length ts + 2 <= fuel)%nat ->
+  dec_xml_from fuel None 0 (enc_xml_from None ts) = Some ts.
+Proof.
+  intros [|[[s p] o] ts] Hwf fuel Hf.
+  - destruct fuel as [|f]; [cbn in Hf; lia|]. apply xml_step_end.
+  - pose proof Hwf as Hwf'.
+    cbn [forallb] in Hwf. apply andb_true_iff in Hwf as [Ht Hts].
+    cbn [wf_xrio] in Ht. apply andb_true_iff in Ht as [Ht Ho]. apply andb_true_iff in Ht as [Ht Hx].
+    apply andb_true_iff in Ht as [Hs Hp]. apply negb_true_iff in Hp. apply negb_true_iff in Hx.
+    cbn [length] in Hf. destruct fuel as [|[|f]]; try lia.
+    cbn [enc_xml_from].
+    rewrite (xml_step_open _ s _ Hs), (xml_step_prop f s 0 p o _ Hp Hx Ho).
+    rewrite (xml_from_some ts Hts s 0 f); [reflexivity|lia].
+Qed.
+
+Lemma xml_prop_len : forall p o, (3 <= length (xml_prop p o))%nat.
+Proof.
+  intros p o. pose proof (xml_prop_shape p o []) as E. rewrite app_nil_r in E. rewrite E.
+  unfold prop_xmlns. cbn [length]. rewrite !app_length.
+  destruct (snd (split_iri p)); unfold A_XMLNS, A_XMLNS_PROP; cbn [length]; lia.
+Qed.
+
+Lemma enc_xml_len : forall ts cur, (3 * length ts <= length (enc_xml_from cur ts))%nat.
+Proof.
+  induction ts as [|[[s p] o] ts IH]; intros cur; [cbn [length]; lia|].
+  cbn [enc_xml_from length]. rewrite !app_length.
+  pose proof (xml_prop_len p o). pose proof (IH (Some s)). lia.
+Qed.
+
+Lemma dec_xml_enc : forall ts, forallb wf_xrio ts = true ->
+  dec_xml (X_HEAD ++ enc_xml_from None ts) = Some ts.
+Proof.
+  intros ts H. unfold dec_xml. rewrite strip_app.
+  apply xml_from_none; [exact H|].
+  rewrite app_length. pose proof (enc_xml_len ts None).
+  assert (2 <= length X_HEAD)%nat by (vm_compute; lia). lia.
+Qed.
+
+Lemma wf_xrio_of_triple : forall t, wf_triple t = true -> known_xml t = false -> wf_xrio (to_rio t) = true.
+Proof.
+  intros [[s p] o] H K. cbn [wf_triple] in H.
+  apply andb_true_iff in H as [H Ho]. apply andb_true_iff in H as [Hs Hp].
+  unfold known_xml in K. apply orb_false_iff in K as [K Kb]. apply orb_false_iff in K as [K Kr].
+  apply orb_false_iff in K as [Kn Kw]. cbn [known_xml_nsbind] in Kb.
+  cbn [known_xml_nodeid] in Kn. apply orb_false_iff in Kn as [Kns Kno].
+  cbn [known_xml_ws] in Kw. cbn [known_xml_reserved] in Kr.
+  cbn [to_rio wf_xrio]. rewrite Kr, Kb. cbn [negb]. rewrite !andb_true_r. apply andb_true_iff. split.
+  - destruct s as [i|b]; cbn [wf_subject wf_xsubject] in *; [exact Hs|].
+    apply negb_false_iff in Kns. exact Kns.
+  - destruct o as [i|b|[v|v l|v dt]]; cbn [wf_robject wf_rlit to_rio_obj to_rio_lit wf_xobject lit_value] in *.
+    + exact Ho.
+    + apply negb_false_iff in Kno. exact Kno.
+    + rewrite Kw. reflexivity.
+    + rewrite Ho, Kw. reflexivity.
+    + apply andb_true_iff in Ho as [H1 H2]. apply negb_true_iff in H2. rewrite H2.
+      cbn [wf_xobject]. rewrite H1, Kw. reflexivity.
+Qed.
+
+Lemma wf_xrio_all : forall ts, forallb wf_triple ts = true -> existsb known_xml ts = false ->
+  forallb wf_xrio (map to_rio ts) = true.
+Proof.
+  induction ts as [|t ts IH]; intros H K; [reflexivity|].
+  cbn [forallb] in H. apply andb_true_iff in H as [Ht Hts].
+  cbn [existsb] in K. apply orb_false_iff in K as [Kt Kts].
+  cbn [map forallb]. rewrite (wf_xrio_of_triple t Ht Kt), (IH Hts Kts). reflexivity.
+Qed.
+
+Theorem xml_roundtrip : forall ts,
+  forallb wf_triple ts = true -> existsb known_xml ts = false ->
+  parse_xml (ser_xml ts) = Some ts.
+Proof.
+  intros ts H K. unfold parse_xml, ser_xml.
+  rewrite (dec_xml_enc _ (wf_xrio_all ts H K)). apply map_opt_adapter, H.
+Qed.
+
+(* ---------- the RDF/XML classes are real ---------- *)
+Definition P_E : str := [104; 116; 116; 112; 58; 47; 47; 101; 47; 112].   (* http://e/p *)
+Definition S_E : subject := SIri [104; 116; 116; 112; 58; 47; 47; 101; 47; 115].
+Definition xml_witness_nodeid : list triple := [(S_E, P_E, ROBlank [49])].
+Definition xml_witness_ws : list triple := [(S_E, P_E, ROLit (RString [32]))].
+Definition xml_witness_li : list triple := [(S_E, RDF_LI, ROLit (RString [120]))].
+Definition xml_witness_reserved : list triple := [(S_E, RDF_NS ++ [97; 98; 111; 117; 116], ROIri P_E)].
+
+Definition xml_witness_nsbind : list triple := [(S_E, XMLNS_NS, ROIri P_E)].
+Lemma xml_refuted_nsbind :
+  forallb wf_triple xml_witness_nsbind = true /\ existsb known_xml_nsbind xml_witness_nsbind = true /\
+  parse_xml (ser_xml xml_witness_nsbind) = None.
+Proof. vm_compute. repeat split; reflexivity. Qed.
+
+Lemma xml_refuted :
+  (forallb wf_triple xml_witness_nodeid = true /\ existsb known_xml_nodeid xml_witness_nodeid = true /\
+   parse_xml (ser_xml xml_witness_nodeid) = None) /\
+  (forallb wf_triple xml_witness_ws = true /\ existsb known_xml_ws xml_witness_ws = true /\
+   parse_xml (ser_xml xml_witness_ws) = Some [(S_E, P_E, ROLit (RString []))]) /\
+  (forallb wf_triple xml_witness_li = true /\ existsb known_xml_reserved xml_witness_li = true /\
+   parse_xml (ser_xml xml_witness_li) = Some [(S_E, RDF_NS ++ [95; 49], ROLit (RString [120]))]) /\
+  (forallb wf_triple xml_witness_reserved = true /\ existsb known_xml_reserved xml_witness_reserved = true /\
+   parse_xml (ser_xml xml_witness_reserved) = None).
+Proof. vm_compute. repeat split; reflexivity. Qed.
